@@ -253,4 +253,83 @@ def Bitmap.statistics (b : Bitmap) : Stats :=
     minValue := Bitmap.min? b
     cardinality := Bitmap.len b }
 
+/-! ## Mirrored forms (fidelity audit)
+
+`Bitmap.statistics` above computes every field by its own traversal (`filter` + `length` / `Bitmap.len`); the Rust
+is ONE loop over `self.containers` that bumps eight `let mut` counters.  `Bitmap.statisticsM` is that loop; it is what
+the driver executes; `Lemmas/FidelityCodec.lean` proves `statisticsM b = statistics b` for every `b`. -/
+
+/-- statistics.rs:64-71: the `let mut` counters (the allocator-dependent `n_bytes_*` are not modelled) -/
+structure StatsAcc where
+  nContainers : Nat := 0
+  nArray : Nat := 0
+  nBitset : Nat := 0
+  valuesArray : Nat := 0
+  valuesBitset : Nat := 0
+  cardinality : Nat := 0
+deriving Repr, BEq, DecidableEq
+
+/-- statistics.rs:73-89: the body of `for Container { key: _, store } in &self.containers`
+    (`array.len() as u32`: `Safe_statistics` carries `U32 v.length`) -/
+def StatsAcc.step (a : StatsAcc) (c : Container) : StatsAcc :=
+  match c.store with
+  | .array v =>
+    { a with
+      cardinality := a.cardinality + v.length           -- :76 `cardinality += array.len()`
+      valuesArray := a.valuesArray + v.length           -- :77 `n_values_array_containers += array.len() as u32`
+      nArray := a.nArray + 1                            -- :79
+      nContainers := a.nContainers + 1 }                -- :88
+  | .bitmap bs =>
+    { a with
+      cardinality := a.cardinality + bs.len             -- :82 `cardinality += bitmap.len()` (the cached field)
+      valuesBitset := a.valuesBitset + bs.len           -- :83
+      nBitset := a.nBitset + 1                          -- :85
+      nContainers := a.nContainers + 1 }                -- :88
+
+/-- statistics.rs:63-106 `statistics`, as the single accumulating loop it is -/
+def Bitmap.statisticsM (b : Bitmap) : Stats :=
+  let a := b.foldl StatsAcc.step {}
+  { nContainers := a.nContainers
+    nArray := a.nArray
+    nRun := 0                                            -- :94
+    nBitset := a.nBitset
+    valuesArray := a.valuesArray
+    valuesRun := 0                                       -- :97
+    valuesBitset := a.valuesBitset
+    maxValue := Bitmap.max? b                            -- :102 `self.max()`
+    minValue := Bitmap.min? b                            -- :103 `self.min()`
+    cardinality := a.cardinality }
+
+/-- serialization.rs:72 `(container.len() - 1) as u16` — a `u64` subtraction.  For `len = 0` (an empty container:
+    not reachable for a well-formed value, but `deserialize_unchecked_from` yields one for a run chunk with zero
+    runs) it panics when overflow checks are on (`none`) and wraps to `u64::MAX`, truncated to `0xFFFF`, when they
+    are off.  `Bitmap.descrBytes` writes `0` there (truncated `Nat` subtraction; `Safe_serialize` carries `1 ≤ len`). -/
+def cardField (ovf : Bool) (len : Nat) : Option Nat :=
+  if len = 0 then (if ovf then none else some 65535) else some ((len - 1) % 65536)
+
+namespace Bitmap
+
+/-- serialization.rs:70-73, the description loop with the exact `u64` arithmetic of `cardField` -/
+def descrBytesM (ovf : Bool) : Bitmap → Option (List Nat)
+  | [] => some []
+  | c :: cs =>
+    match cardField ovf c.len with
+    | none => none
+    | some f =>
+      match descrBytesM ovf cs with
+      | none => none
+      | some rest => some (u16le c.key ++ u16le f ++ rest)
+
+/-- serialization.rs:66 `serialize_into` on a writer that accepts everything; `none` = the overflow panic of :72
+    (`ovf` = overflow checks, on in the `chk` build profile).  Equal to `some (serialize b)` whenever no container
+    is empty (`Lemmas/FidelityCodec.lean: serializeM_eq`), in particular for every well-formed value. -/
+def serializeM (ovf : Bool) (b : Bitmap) : Option (List Nat) :=
+  match descrBytesM ovf b with
+  | none => none
+  | some d =>
+    some (u32le 12346 ++ u32le (b.length % 4294967296) ++ d
+      ++ offsetBytes b (8 + 8 * b.length) ++ payloadBytes b)
+
+end Bitmap
+
 end Roaring
